@@ -36,13 +36,19 @@ type Msg struct {
 	ID string  `json:"id,omitempty"`
 	V  int     `json:"v,omitempty"` // variant (payload / malformed-ness flavour)
 	X  *Script `json:"x,omitempty"`
+	// Refuse: the operation text carries the marker the before-start hook refuses (only
+	// meaningful for a subscribe with a usable payload in a case that configures the hook).
+	Refuse bool `json:"refuse,omitempty"`
 }
 
 // Case is one generated history: a protocol, a client message sequence and executor scripts.
 type Case struct {
 	Proto     string `json:"proto"`                // tws (graphql-transport-ws) | gws (graphql-ws)
 	TimeoutMs int    `json:"timeout_ms,omitempty"` // init-timeout part only: CustomInitTimeOutDuration
-	Msgs      []Msg  `json:"msgs"`
+	// Hook: the engine behind the executor pool has a WebsocketBeforeStartHook configured; it
+	// refuses every operation whose text contains hookMarker.
+	Hook bool  `json:"hook,omitempty"`
+	Msgs []Msg `json:"msgs"`
 }
 
 func (c Case) key() string { b, _ := json.Marshal(c); return string(b) }
@@ -88,12 +94,28 @@ func completeType(proto string) string {
 
 // queryText is the operation text of message i; the marker m<i> is only for readability of
 // histories (the fake pool attributes by "message currently being handled").
-func queryText(i int, x *Script) string {
+func queryText(i int, m Msg) string {
 	op := "query"
-	if x != nil {
-		op = x.Op
+	if m.X != nil {
+		op = m.X.Op
+	}
+	if m.Refuse {
+		return fmt.Sprintf("%s { m%d %s }", op, i, hookMarker)
 	}
 	return fmt.Sprintf("%s { m%d }", op, i)
+}
+
+const (
+	hookMarker = "hookRefuse"
+	// hookErrText / hookErrPayload: what the hook answers and how both protocols put it on the
+	// wire (type "error", the id, and this payload) - pinned on the unchanged tree.
+	hookErrText    = "refused by before-start hook"
+	hookErrPayload = `[{"message":"` + hookErrText + `"}]`
+)
+
+// hookRefused: the configured before-start hook refuses the operation of this message.
+func hookRefused(c Case, m Msg) bool {
+	return c.Hook && m.K == "sub" && m.Refuse && (m.V == 0 || m.V == 5)
 }
 
 // subPayloadValid reports whether the subscribe variant carries a payload the executor pool
@@ -130,9 +152,9 @@ func wire(proto string, i int, m Msg) []byte {
 		case 4:
 			return []byte(head + `,"payload":{}}`)
 		case 5:
-			return []byte(head + `,"payload":{"operationName":"","query":` + q(queryText(i, m.X)) + `,"variables":{"a":[1,2]},"extensions":{"e":1}}}`)
+			return []byte(head + `,"payload":{"operationName":"","query":` + q(queryText(i, m)) + `,"variables":{"a":[1,2]},"extensions":{"e":1}}}`)
 		default:
-			return []byte(head + `,"payload":{"query":` + q(queryText(i, m.X)) + `}}`)
+			return []byte(head + `,"payload":{"query":` + q(queryText(i, m)) + `}}`)
 		}
 	case "complete":
 		return []byte(`{"id":` + q(m.ID) + `,"type":"` + completeType(proto) + `"}`)
